@@ -8,6 +8,7 @@ import (
 	"encoding/json"
 	"fmt"
 	"io"
+	"os"
 	"strings"
 
 	"github.com/containerd/stargz-snapshotter/estargz"
@@ -286,6 +287,15 @@ func E(name, typ string, kv ...any) Ent {
 	return e
 }
 
+// deepChoices: the 20000-deep tree costs seconds per input; the quick tier meets it once in the
+// suspects stream only.
+func (g *Gen) deepChoices() int {
+	if os.Getenv("VERIF_TIER") == "thorough" {
+		return 7
+	}
+	return 6
+}
+
 func (g *Gen) base() *Base { return g.Bases[g.R.Pick(8, 1, 1)] }
 
 func (g *Gen) blobInput(b *Base, class string, toc []byte) Input {
@@ -476,7 +486,7 @@ func (g *Gen) Structured() Input {
 			ents = append(ents, cloneEnts(ents)...)
 			return g.blobInput(b, "toc:name-dup-all", tocText(1, ents))
 		case 3:
-			n := []int{50, 1000, 9999, 10000, 10001, 10002, 20000}[r.Intn(7)]
+			n := []int{50, 1000, 9999, 10000, 10001, 10002, 20000}[r.Intn(g.deepChoices())]
 			ents = append(ents, E(deepName(n, "f"), pick("reg", "dir", "symlink"), "size", 0))
 			return g.blobInput(b, fmt.Sprintf("toc:deep-path-%d", n), tocText(1, ents))
 		case 4:
@@ -782,8 +792,7 @@ func (g *Gen) Tar() Input {
 
 // Fixed returns hand-written scenarios: the inputs of the repaired defects (each MUST now be
 // rejected with an error) and a valid control per flavour.
-func (g *Gen) Fixed() []Input {
-	var out []Input
+func (g *Gen) Fixed() (out, late []Input) {
 	for _, b := range g.Bases {
 		out = append(out, Input{Class: "valid:" + b.Comp, Kind: "blob", Data: b.Blob, ExtTOC: b.ExtTOC, Note: b.Comp})
 	}
@@ -808,10 +817,11 @@ func (g *Gen) Fixed() []Input {
 	if i := entIdx(ents, "d/a.txt"); i >= 0 && i+1 < len(ents) {
 		ents[i+1]["chunkSize"] = -3
 	}
-	out = append(out, g.blobInput(gz, "fixed:42545b8:negative-chunk-size", tocText(1, ents)))
-	// 6332cf7: chunk size that does not tile the merge buffer (passthrough), see PassthroughSizes
+	// 6332cf7: chunk size that does not tile the merge buffer (passthrough merge sizes 6 and 7
+	// against 4-byte chunks, see ExerciseReader)
 	out = append(out, g.blobInput(gz, "fixed:6332cf7:passthrough-straddle", gz.TOCJSON))
-	return out
+	late = append(late, g.blobInput(gz, "fixed:42545b8:negative-chunk-size", tocText(1, ents)))
+	return out, late
 }
 
 func markMust(in Input) Input { in.MustErr = true; return in }
